@@ -495,7 +495,28 @@ def write_replay(prop, payload):
 
 
 def write_evidence(prop, tier, seed, level, coverage, assumptions, wall, violations):
-    os.makedirs(os.path.join(VERIF, "evidence"), exist_ok=True)
+    # evidence/ holds runs against /repo itself only; a run against a scratch tree (VERIF_REPO=…, used to try seeded
+    # changes) writes to build/evidence_scratch/ so that it can never be committed as evidence
+    scratch = os.path.realpath(REPO) != "/repo"
+    d = os.path.join(BUILD, "evidence_scratch") if scratch else os.path.join(VERIF, "evidence")
+    os.makedirs(d, exist_ok=True)
     ev = {"property_id": prop, "tier": tier, "seed": seed, "level": level, "coverage": coverage,
           "assumptions": assumptions, "wall_s": round(wall, 1), "violations": violations}
-    json.dump(ev, open(os.path.join(VERIF, "evidence", prop + ".json"), "w"), indent=1)
+    if scratch:
+        ev["repo"] = REPO
+    json.dump(ev, open(os.path.join(d, prop + ".json"), "w"), indent=1)
+
+
+def restore_generated(P):
+    """after a run against a scratch tree: re-run the translators on /repo so that no Generated/*.lean of a
+    modified tree is left behind in the working copy"""
+    global REPO
+    if os.path.realpath(REPO) == "/repo":
+        return
+    saved, REPO = REPO, "/repo"
+    try:
+        regenerate()
+        if P.get("translators"):
+            P["translators"]("/repo")
+    finally:
+        REPO = saved
